@@ -20,7 +20,7 @@ ADDED = {
     "C05": " The process-group / session wrappers are applied as configured (R05.9) and an expired grace timer is cleared when it fires, so a restart goes on to its Start (R05.10).",
     "C06": " The whole-instance graceful quit stops every job through the same graceful stop with the given signal and grace, followed by a normal-priority delete (R06.10, owned by C08). The deadline is computed with checked_add and a far-future fallback, and no run-time duration is added to an Instant with the panicking operator in library, supervisor or CLI, so a grace period of Duration::MAX neither panics the job task nor kills the child through its dropped handle (R06.2, R06.11); the unit-less product of --stop-timeout saturates instead of wrapping to a short grace (R06.9).",
     "C07": " A to_wait() ticket is resolved at once or queued for a process end that will come (R07.8); a control taken from its queue is returned without a further suspension point, so it cannot be lost when the job task's select! drops recv (R07.9). The job task cannot be panicked by a duration (R07.10), which would skip the job-gone flag.",
-    "C08": " No restart timer stays armed after its restart was carried out (R08.8) and Urgent is the greatest Priority, so the interrupt overtakes any backlog (R08.9).",
+    "C08": " No restart timer stays armed after its restart was carried out (R08.8) and Urgent is the greatest Priority, so the interrupt overtakes any backlog (R08.9). The handler's accessors signals() / paths() / completions() range over the whole batch, so an interrupt collected behind a pending event is seen (R08.10).",
     "C10": " recv is cancellation-safe (R10.7) and a handler raises the control's own flag, never the job-gone flag (R10.6).",
     "C11": " The whitelist passes an event as soon as any of its paths is explicitly watched (R11.1) and a whitelist match of a nearer ignore file ends the search (R11.5).",
     "C12": " Explicit patterns are consulted for every path (R12.8), explicit files load in listed order and a failure of dirs::ignores() is propagated (R12.9), and no filtering flag is declared to override another (R12.3).",
